@@ -161,7 +161,7 @@ class PoolEngine(Engine):
                                         "ms": duration(i)}
                 if "raise" in enabled and rng.random() < 0.15:
                     task["raise"] = rng.choice(["ValueError", "KeyError", "RuntimeError", "Boom", "ZeroDivisionError",
-                                                "StopIteration"])
+                                                "StopIteration"] + (["BadInit"] if timeout is not None else []))
                 if "unpicklable_result" in enabled and rng.random() < 0.1:
                     task["unpicklable_result"] = True
                 if "unpicklable_arg" in enabled and rng.random() < 0.1:
@@ -212,6 +212,9 @@ class PoolEngine(Engine):
                     spec["id"] = "rec0"
                 if rng.random() < 0.1:
                     spec["id"] = "a_very_long_record_identifier_" + "z" * 20 + str(i)
+                if not spec["genes"] and rng.random() < 0.12:
+                    spec["id"] = f"rec{i}bad"          # gene finding fails on this one
+                    spec["seq"] = "".join(rng.choice("ACGT") for _ in spec["seq"])
                 tasks.append({"i": i, "spec": spec, "ms": duration(i), "ms2": duration(n - i)})
         scenario["tasks"] = tasks
         if real:
@@ -224,6 +227,8 @@ class PoolEngine(Engine):
                 task.pop("kill", None)
                 task.pop("stall", None)
                 task.pop("unpicklable_arg", None)   # such a chunk never starts, so it could not take its turn
+                if task.get("raise") == "BadInit":  # would wedge the real pool for the whole real-time timeout
+                    task["raise"] = "ValueError"
         return scenario
 
     def _gen_pipeline(self, rng) -> Dict[str, Any]:
@@ -323,7 +328,7 @@ EXPECTED_PROBES = ["out_of_order_completion", "n_lt_k", "n_eq_k", "n_gt_4k", "ex
                    "unpicklable_result_fired", "unpicklable_task_fired", "cpus_from_config", "followup_ok",
                    "empty_batch", "preprocess_duplicate_ids", "records_with_sectioned_children", "real_pool_run",
                    "real_out_of_order_completion", "simpool_agrees_with_real_pool", "pipeline_multi_record",
-                   "pipeline_out_of_order_completion", "parallel_execute_batch"]
+                   "pipeline_out_of_order_completion", "parallel_execute_batch", "preprocess_genefinding_failure"]
 
 _MODS: Dict[str, Any] = {}
 _ADDRESS = __import__("re").compile(r"0x[0-9a-fA-F]+")
@@ -510,10 +515,10 @@ class _Execution:
             res.probe("unpicklable_result_fired")
         if fired.get("unpicklable_task"):
             res.probe("unpicklable_task_fired")
-        pool_faults = [key for key in ("timeout", "worker_killed", "unpicklable_result", "unpicklable_task")
-                       if fired.get(key)]
+        pool_faults = [key for key in ("timeout", "worker_killed", "unpicklable_result", "unpicklable_task",
+                                       "result_handler_died") if fired.get(key)]
         # a lost chunk can only be noticed through the timeout; stalls only matter if the timeout fired
-        blocking = [key for key in pool_faults if key != "worker_killed"]
+        blocking = [key for key in pool_faults if key not in ("worker_killed", "result_handler_died")]
         n = len(sc["tasks"])
         context = f"k={k} n={n} timeout={timeout} faults={dict(fired)}"
         if outcome[0] == "hang":
@@ -818,6 +823,8 @@ class _Execution:
             res.probe("preprocess_duplicate_ids")
         if any(not t["spec"]["genes"] for t in tasks):
             res.probe("preprocess_genefinding")
+        if any(t["spec"]["id"].endswith("bad") for t in tasks):
+            res.probe("preprocess_genefinding_failure")
         simpool.install(simpool.Schedule([]))
         reference = self._preprocess_once(1, simulated=False)
         sched = simpool.Schedule([self._schedule(), self._schedule(second=True)])
